@@ -326,7 +326,7 @@ class LoopInterp(Interp):
             return Sc(big_op("Σ" if name == "sum" else "Π", it.frames, v.v, self.loop_polys))
         if name == "fold" and len(args) == 3:
             init = unref(args[1])
-            index_like = isinstance(init, Sc) and all(a[0] == "v" and not a[2] and (a[1] == "n" or a[1][0] in "vw") for a in init.v.atoms())
+            index_like = isinstance(init, Sc) and bool(list(init.v.atoms())) and all(a[0] == "v" and not a[2] and (a[1] == "n" or a[1][0] in "vw") for a in init.v.atoms())
             if isinstance(init, Sc) and not index_like:
                 acc = Poly.var("$acc")
                 v = unref(self.in_frames(it.frames, lambda: self.call_closure(unref(args[2]), [Sc(acc), it.item], e)))
@@ -865,6 +865,22 @@ def run_loops(chk, F):
             chk.count("loop-body update statements checked", 1)
         except Unsupported as ex:
             chk.undecide("loops|lu-determinant", "unsupported: %s" % ex, body_loc(F, body))
+    # ------------------------------------------------------------------ norm
+    body = get("linalg::norm")
+    if body is not None:
+        try:
+            ups, ev, paths = updates_of(F, body, lambda: [ArrV("x")])
+            vals = [unref(pp["value"]) for pp in paths]
+            want = sigma(Poly.const(0), Poly.sym("n"), lambda k: A("x", k) * A("x", k)).pow(E(Fr(1, 2)))
+            ok = len(vals) == 1 and isinstance(vals[0], Sc) and equal(vals[0].v, want)
+            if len(vals) == 1 and isinstance(vals[0], Sc) and not ok and not any(a[0] == "f" and a[1] == "Σ" for a in vals[0].v.atoms_deep() if isinstance(a, tuple)):
+                chk.undecide("loops|norm", "unsupported: norm is not written as a sum over the elements", body_loc(F, body))
+            else:
+                chk.ob("loops|norm", ok, "norm(x) is the square root of the sum of the squared elements", body_loc(F, body),
+                       found=[v.v.show()[:120] if isinstance(v, Sc) else repr(v)[:80] for v in vals], required=want.show())
+            chk.count("loop-body update statements checked", 1)
+        except Unsupported as ex:
+            chk.undecide("loops|norm", "unsupported: %s" % ex, body_loc(F, body))
     # ------------------------------------------------------------------ Jacobi rotations
     body = get("jacobi_eigenvalue")
     if body is None:
@@ -1240,6 +1256,7 @@ def jacobi_control(chk, F, body, paths, P, Q):
             if role == "D":
                 dn = nm
     bad3, n_ann, unknown = [], 0, 0
+    untested_paths = []
     for pp in paths:
         rot = any(u["arr"] == "D" and len(u["frames"]) == 3 for u in pp["updates"])
         ann = any(u["arr"] == "A" and len(u["frames"]) == 3 and u["idx"] == (P, Q) and u["rhs"].is_zero_syntactic() for u in pp["updates"])
@@ -1262,8 +1279,12 @@ def jacobi_control(chk, F, body, paths, P, Q):
                                 tested.add(who)
         if not tested:
             unknown += 1
+            untested_paths.append(path_descr(pp["ctx"])[:140])
         elif tested != {P, Q}:
             bad3.append("a_pq set to zero after testing only d[%s]: %s" % (sorted(tested)[0], path_descr(pp["ctx"])[:120]))
+    if n_ann and 0 < unknown < n_ann:
+        # some paths test both diagonal elements, others drop the element with no test at all
+        bad3 += ["a_pq set to zero with no negligibility test on the path: %s" % d_ for d_ in untested_paths[:2]]
     if n_ann and unknown == n_ann:
         chk.undecide("loops|jacobi|annihilation", "the negligibility test before a_pq <- 0 (without rotation) is not of the recognised form", loc)
     else:
